@@ -264,3 +264,10 @@ MUTANTS["C17"] += [
     M("comment-stops-at-cr", "ode.lark", "COMMENT: /#[^\\n]*/", "COMMENT: /#[^\\r\\n]*/", "R17.b"),
     M("comment-stops-at-semicolon", "ode.lark", "COMMENT: /#[^\\n]*/", "COMMENT: /#[^;\\n]*/", "R17.b"),
 ]
+
+MUTANTS["C11"] += [
+    M("ite-not-rewritten", "codegen/base.py", "            return printer._print(simplify_logic(cond))", "            return printer._print(cond)", "R11.a"),
+]
+MUTANTS["C14"] += [
+    M("piecewise-as-max-reduction", "codegen/python.py", "            conds, exprs = _print_Piecewise(self, expr)\n\n            for c, e in zip(conds, exprs):", "            if len(expr.args) == 2 and expr.args[0].cond.is_Relational:\n                return 'numpy.max([' + self._print(expr.args[0].expr) + ', ' + self._print(expr.args[1].expr) + '])'\n            conds, exprs = _print_Piecewise(self, expr)\n\n            for c, e in zip(conds, exprs):", "R14.a"),
+]
